@@ -5,6 +5,7 @@ import Cicada.Model.Subst
 import Cicada.Model.Core
 import Cicada.Model.Alias
 import Cicada.Model.Script
+import Cicada.Model.Locust
 import Cicada.Spec.C17
 import Cicada.Spec.C03
 import Cicada.Spec.C01
@@ -216,6 +217,12 @@ def parseDeliveries (s : String) : List C13.Delivery :=
 
 def c13ValueOk (v : Str) : Bool := (matchBackquote v).isNone && !shouldDoDollar v
 
+partial def ptDump : Locust.PT → String
+  | .node r t kids =>
+    let tt := trim t
+    if tt.isEmpty then "" else
+    "(" ++ r ++ " " ++ hexOfBytes (String.ofList tt).toUTF8 ++ String.join (kids.map (fun k => let d := ptDump k; if d = "" then "" else " " ++ d)) ++ ")"
+
 def answer (stream : String) (f : Array String) : Ans :=
   let g (i : Nat) : String := f.getD i "-"
   match stream with
@@ -392,10 +399,19 @@ def answer (stream : String) (f : Array String) : Ans :=
       let rescan := reDollarParen out || (out.filter (· = '`')).length ≥ 2
       let plainOut := out.all (fun c => isAlphaA c || isDigitA c || c = '\n' || c = '-' || c = '.' || c = '/' || c = '_')
       let innerPre := cmd.any (fun c => c = '$' || c = '{' || c = '*' || c = '~' || c = '\\')
+      -- a `$` in the surrounding text must be plainly literal (followed by a character that cannot start a reference)
+      let rec litDollar : Str → Bool
+        | [] => true
+        | '$' :: [] => false
+        | '$' :: c :: r => !(isKeyChar c || c = '$' || c = '?' || c = '{' || c = '(') && litDollar (c :: r)
+        | _ :: r => litDollar r
+      let textOk := litDollar pre && litDollar post && (dq || (!pre.contains ' ' && !post.contains ' '))
       let bqSuffix := !dq && g 5 = "q" && pre = [] && post ≠ []
-      let guard := trimOk && !rescan && (dq || plainOut) && expected ≠ [] && !innerPre && !bqSuffix
+      let guard := trimOk && !rescan && (dq || plainOut) && expected ≠ [] && !innerPre && !bqSuffix && textOk &&
+        !pre.contains '$' && !post.contains '$'
       let cls : String :=
-        if guard then "-"
+        if !textOk then "outside-statement:surrounding-text"
+        else if guard then "-"
         else if expected = [] then "outside-statement:empty-word"
         else if bqSuffix then "backquote-suffix"
         else if innerPre then "inner-preexpanded"
@@ -481,6 +497,9 @@ def answer (stream : String) (f : Array String) : Ans :=
     let hasEsc := line.contains '\\'
     { m := if same then "same" else "differs", s := "same", guard := if hasEsc then "0" else "1",
       cls := if hasEsc then "unquoted-escape" else "-" }
+  | "ptree" => { m := match Locust.parseLines (unhex (g 0)) with
+      | some t => ptDump t
+      | none => "SYNTAX-ERROR" }
   | "globneeds" =>
     -- which patterns will `expand_glob` hand to the glob crate for this case (f2: line | line1 | tokens)
     let es := envIn (g 0)
